@@ -48,9 +48,11 @@ theorem C18_ycbcr_closed (y cb cr : Int) :
     ycbcr601_red y cb cr = max 0 (min 255 ((298 * (y - 16) + 409 * (cr - 128) + 128) / 256))
     ∧ ycbcr601_green y cb cr = max 0 (min 255 ((298 * (y - 16) - 100 * (cb - 128) - 208 * (cr - 128) + 128) / 256))
     ∧ ycbcr601_blue y cb cr = max 0 (min 255 ((298 * (y - 16) + 516 * (cb - 128) + 128) / 256)) := by
-  unfold ycbcr601_red ycbcr601_green ycbcr601_blue
-  simp only []
-  omega
+  have clamp_byte : ∀ a : Int, max 0 (min 255 a) % 256 = max 0 (min 255 a) := fun a => by omega
+  refine ⟨?_, ?_, ?_⟩
+  · unfold ycbcr601_red; simp only [clamp_byte]; try (congr 3; ring)
+  · unfold ycbcr601_green; simp only [clamp_byte]; try (congr 3; ring)
+  · unfold ycbcr601_blue; simp only [clamp_byte]; try (congr 3; ring)
 
 /-- nominal black and white of BT.601 studio range -/
 theorem C18_ycbcr_black_white :
